@@ -1127,6 +1127,13 @@ package ro
 //@   on next(ctx, values) when values.A == values.B : emits
 //@   on complete(ctx) : emits Next(ctx, true), Complete(ctx)
 
+//@ func SequenceEqual$1$1
+//@   note the documented meaning ("determines whether two observable sequences are equal", docs: different lengths give false) compares the lengths too; zipping alone ends at the shorter sequence and answers true for a proper prefix (Just(1,2,3) against Just(1,2)). A necessary condition is stated: the comparison is not left to Zip2 alone
+//@   props C04
+//@   binds subscriberCtx destination source obsB
+//@   track call.Zip2
+//@   ensures [sequences-of-different-length-are-not-equal|C04] !called(call.Zip2)
+
 //@ operator ContextWithTimeout
 //@   props C04 C09 C08
 //@   on next(ctx, value) : emits Next(ctx_WithTimeout(ctx, timeout), value)
